@@ -44,7 +44,7 @@ func (g *gatePark) arm(point, inst string) {
 
 func (g *gatePark) fn(point string, kv ...any) {
 	g.mu.Lock()
-	if !g.armed || point != g.point || len(kv) == 0 || fmt.Sprint(kv[0]) != g.inst {
+	if !g.armed || point != g.point || (g.inst != "" && (len(kv) == 0 || fmt.Sprint(kv[0]) != g.inst)) {
 		g.mu.Unlock()
 		return
 	}
